@@ -137,6 +137,39 @@ def _conjuncts(terms):
     return out
 
 
+# A path on which the executor had to abstract (a symbolic loop cut without invariant, a comprehension it could not follow, a
+# contract clause that did not fit the shape of the state) carries this marker in its path condition: a `sat` answer for a
+# VC of such a path is not a counterexample (solve.SAT_UNTRUSTED -> `unknown`; the native replayer then decides).
+ABSTRACTED = z3.Bool("c02!path-abstracted")
+
+
+def _untrusted(pc, goal) -> bool:
+    for p_ in pc:
+        if p_.eq(ABSTRACTED):
+            return True
+    return False
+
+
+def register_untrusted():
+    from pyvc import solve
+    if _untrusted not in solve.SAT_UNTRUSTED:
+        solve.SAT_UNTRUSTED.append(_untrusted)
+
+
+def robust(fn):
+    """Contract clause that does not fit the state (renamed / restructured code): not an engine error, not a refutation --
+    the path is marked abstracted and the clause is left undecided for the replayer."""
+    def wrapped(c):
+        try:
+            return fn(c)
+        except (AttributeError, KeyError, TypeError, IndexError, Unsupported):
+            st = getattr(c, "st", None)
+            if st is not None:
+                st.assume(ABSTRACTED)
+            return z3.BoolVal(False)
+    return wrapped
+
+
 class Conj(list):
     """Labelled conjunction [(label, Bool)]: assumed as a whole, proved conjunct by conjunct."""
 
@@ -389,6 +422,15 @@ class C02Executor(Executor):
             return [(st, VExt("StrSet", EMPTYSET))]
         return self.havoc_call(st, "set", args, node)
 
+    def dataclass_fields(self, name):
+        r = super().dataclass_fields(name)
+        if r is not None:
+            return r
+        cls = self.module.classes.get(name)
+        if cls is not None and any(ast.unparse(b).split(".")[-1] == "NamedTuple" for b in cls.bases):
+            return [(b.target.id, b.value) for b in cls.body if isinstance(b, ast.AnnAssign) and isinstance(b.target, ast.Name)]
+        return None
+
     def construct(self, st, t, args, kwargs, node):
         if t.name == "set" and not args:
             return [(st, VExt("StrSet", EMPTYSET))]
@@ -403,6 +445,13 @@ class C02Executor(Executor):
             if head is not None and len(head) == 1 and b.ekind == "StrRow" and isinstance(head[0], VExt) and head[0].sort == "StrRow":
                 h0, el = head[0], b.elem
                 return [(st, VSeq(z3.simplify(b.length + 1), lambda i: ops.same_shape_ite(i == 0, h0, el(z3.simplify(i - 1))), "StrRow"))]
+        if op == "Add" and not inplace and isinstance(a, VRef) and isinstance(b, VRef) \
+                and (slist_of(st, a) is not None or slist_of(st, b) is not None):
+            # list + list with at least one side of symbolic length: a new str list
+            new = self.new_list(st, [])
+            for side in (a, b):
+                self.list_method(st, new, "extend", [side], {}, node)
+            return [(st, new)]
         if op == "Add" and inplace and slist_of(st, a) is not None:
             for (s2, _r) in self.list_method(st, a, "extend", [b], {}, node):
                 return [(s2, None)]
@@ -548,14 +597,23 @@ class C02Executor(Executor):
                 sl.append((r, st.heap[r]))
         # an instance all of whose modelled fields are already unknown has nothing left to havoc (keeps its class, so
         # that method calls on it still resolve to their contracts)
-        opaque = [(r, st.heap[r]) for r in sorted(refs) if r in st.heap and st.heap[r].kind == "obj"
-                  and all(isinstance(x, VUnk) for x in st.heap[r].data.values())]
+        opaque = [(r, st.heap[r]) for r in sorted(refs) if r in st.heap and st.heap[r].kind == "obj" and st.heap[r].data is not None
+                  and (all(isinstance(x, VUnk) for x in st.heap[r].data.values()) or self._immutable_class(st.heap[r].cls))]
         super().havoc_loop_state(st, body, spec, extra_names)
         for r, o in opaque:
             st.heap[r] = o
         for r, o in sl:
             st.heap[r] = o
             self.slist_havoc(st, r)
+
+    def _immutable_class(self, cls):
+        """typing.NamedTuple subclasses (and frozen dataclasses) of the module: instances cannot be mutated by any callee."""
+        node = self.module.classes.get(cls) if cls else None
+        if node is None:
+            return False
+        if any(ast.unparse(b).split(".")[-1] == "NamedTuple" for b in node.bases):
+            return True
+        return any("frozen=True" in ast.unparse(d) for d in node.decorator_list)
 
     def _appended_in(self, body, st, ref):
         for n in body:
@@ -572,13 +630,46 @@ class C02Executor(Executor):
                                 return True
         return False
 
+    # -- loop specifications by role, not by position -----------------------------------------------------
+    _loop_st = None
+    _loop_it = None
+
+    def loop_spec(self, node):
+        """A contract may carry `loop_match(ex, st, node, it) -> LoopSpec | None`: the loop is identified by what it iterates
+        over / what it feeds (semantic roles), so inserting, removing, reordering loops or moving one into a helper that
+        is executed in place does not detach the invariant.  Without it: the engine's positional lookup."""
+        c = self.contract
+        m = getattr(c, "loop_match", None) if c is not None else None
+        if m is not None:
+            try:
+                return m(self, self._loop_st, node, self._loop_it)
+            except (AttributeError, KeyError, TypeError, IndexError):
+                return None
+        return super().loop_spec(node)
+
+    @staticmethod
+    def _specified(spec):
+        return spec is not None and (spec.inv is not None or getattr(spec, "step", None) is not None or spec.unroll is not None)
+
+    def symbolic_for(self, s, st, it):
+        self._loop_st, self._loop_it = st, it
+        if not self._specified(self.loop_spec(s)):
+            st.assume(ABSTRACTED)            # cut with invariant True: what follows is an over-approximation
+        r = super().symbolic_for(s, st, it)
+        self._loop_st, self._loop_it = None, None
+        return r
+
     def s_While(self, s, st):
         """`LoopSpec.step(start_ctx, end_ctx) -> Conj`: a two-state property of ONE iteration started in an arbitrary
         state (everything the body assigns is havocked; no invariant is assumed, none is needed after the loop)."""
         from pyvc.symex import LoopCtx, Outcome
+        self._loop_st, self._loop_it = st, None
         spec = self.loop_spec(s)
         step = getattr(spec, "step", None) if spec is not None else None
         if step is None:
+            if not self._specified(spec):
+                res = self.try_concrete_while(s, st.fork()) if False else None
+                st.assume(ABSTRACTED)
             return super().s_While(s, st)
         label = spec.label or "loop"
         entry = st.fork()
